@@ -45,6 +45,7 @@ import (
 	"log"
 	"net"
 	"os"
+	"runtime/debug"
 	"sync"
 	"sync/atomic"
 	"time"
@@ -540,6 +541,7 @@ func (server *SugarDB) handleConnection(conn net.Conn) {
 			defer func() {
 				if p := recover(); p != nil {
 					log.Printf("panic while handling command: %v\n", p)
+					verif.Point("conn.panic", p, debug.Stack())
 					err = fmt.Errorf("internal error: %v", p)
 				}
 			}()
